@@ -53,6 +53,20 @@ def shape : Nat → Option (List (Bytes × FTy))
   | 21 => some [(b "min", .option (.uint 32)), (b "kind", .option (.enum colors)), (b "flag", .option .bool)]
   | _ => none
 
+/-- Shapes with a `#[serde(flatten)]`-ed part: (outer fields, flattened fields). -/
+def flatShape : Nat → Option (List (Bytes × FTy) × List (Bytes × FTy))
+  | 22 => some ([(b "id", .scalar (.uint 32))],
+      [(b "name", .scalar .string), (b "tag", .option .string), (b "kind", .scalar (.enum colors)),
+       (b "c", .scalar .char)])
+  | 23 => some ([(b "s", .scalar .string)], [(b "n", .scalar (.uint 16)), (b "f", .option .bool)])
+  | _ => none
+
+/-- `from_map` on any shape of the wire table. -/
+def mapDeShape (sh : Nat) (vars : VarSet) : Option (Except DeErr Val) :=
+  match flatShape sh with
+  | some (o, i) => some (mapDeFlat o i vars)
+  | none => (shape sh).map fun sfs => mapDe (.struct sfs) vars
+
 /-! ### Canonical printing (same grammar as `canon` in the harness) -/
 
 def canonS : SVal → String
@@ -85,6 +99,27 @@ def errKind : DeErr → String
 def resField : Except DeErr Val → String
   | .ok v => "ok " ++ canonVal v
   | .error e => "err " ++ errKind e
+
+/-- The property for a struct with a flattened part, stated without the model of
+serde's buffering: flattening is transparent - whenever the same entries decode
+into the struct with the flattened members written inline, the handler must
+receive exactly that value.  `none` = nothing to require (the inline struct
+refuses the entries too). -/
+def flatSpec (sh : Nat) (vars : VarSet) : Option Val :=
+  match flatShape sh with
+  | some (o, i) => match mapDe (.struct (o ++ i)) vars with | .ok v => some v | .error _ => none
+  | none => none
+
+/-- Finding K9: a supplied member of the flattened part is a boolean or an integer
+(serde cannot fill those from the buffered string). -/
+def flatBlocked (sh : Nat) (vars : VarSet) : Bool :=
+  match flatShape sh with
+  | some (_, i) => vars.any fun kv => match lookupField i kv.1 with
+    | some (.scalar .bool) | some (.scalar (.uint _)) | some (.scalar (.int _)) => true
+    | some (.option .bool) | some (.option (.uint _)) | some (.option (.int _)) => true
+    | some (.seq _) | some .nested => true
+    | _ => false
+  | none => false
 
 /-! ### Field parsers -/
 
